@@ -191,6 +191,9 @@ pub struct Driver {
     pub embedder_rate: u64,
     /// run(): drop every control handle once this many scheduling rounds have passed
     pub drop_handles_after: Option<u64>,
+    /// (n, on_demand): right after the observer took the n-th event (1-based), before the machine is polled
+    /// again, a control request is sent (a request that arrives while the machine is parked on an emission)
+    pub ctl_on_emission: Vec<(usize, bool)>,
     rounds: u64,
     embedder: Option<Pin<Box<dyn Future<Output = ()>>>>,
     pub embedder_touches: u64,
@@ -270,6 +273,7 @@ impl Driver {
             storage_rc: None,
             embedder_rate: 0,
             drop_handles_after: None,
+            ctl_on_emission: vec![],
             rounds: 0,
             embedder: None,
             embedder_touches: 0,
@@ -403,12 +407,14 @@ impl Driver {
     /// One poll of the event stream, followed by a poll of every pending control future.
     pub fn poll_stream(&mut self) {
         let lo = lock(&self.w).seq;
+        let taken_before = self.taken.len();
         if let Some(stream) = self.stream.as_mut() {
             self.seen_root = self.root.count();
             {
                 let mut g = lock(&self.w);
                 g.cur_poll += 1;
                 g.in_poll = true;
+                g.pending_polls_in_poll = 0;
                 g.push(Ev::PollStart);
             }
             let wk = waker(self.root.clone());
@@ -483,6 +489,16 @@ impl Driver {
         self.poll_ctl(lo);
         if self.crashed() {
             self.teardown();
+        }
+        if self.taken.len() > taken_before && !self.ctl_on_emission.is_empty() {
+            let n = self.taken.len();
+            if let Some(p) = self.ctl_on_emission.iter().position(|x| x.0 == n) {
+                let (_, od) = self.ctl_on_emission.remove(p);
+                if self.alive() {
+                    self.sig.str("ce");
+                    self.send_control(0, od);
+                }
+            }
         }
     }
 
@@ -920,7 +936,8 @@ pub fn render_rec(r: &Rec) -> String {
         e => {
             let s = format!("{:?}", e);
             if s.len() > 600 {
-                format!("{}…", &s[..600])
+                let cut = (0..=600).rev().find(|i| s.is_char_boundary(*i)).unwrap_or(0);
+                format!("{}…", &s[..cut])
             } else {
                 s
             }
